@@ -672,6 +672,8 @@ impl BuiltInFunctionObject {
                 context.interner_mut(),
             );
 
+        #[cfg(boa_verif)]
+        crate::verif::emit_tree(&code, "function-constructor");
         let saved = context.vm.frame_mut().environments.pop_to_global();
         let function_object = crate::vm::create_function_object(code, prototype, context);
         context
